@@ -205,6 +205,19 @@ def decodeCobsR (v : Variant) (st : DecState) (segs : List Seg) (peek : Bool) : 
     else { o with ret := .clobber }
   else o
 
+/-- the four COBS decoders by variant -/
+def decodeV (v : Variant) (st : DecState) (segs : List Seg) (peek : Bool) : DecOut :=
+  if v.tail then decodeCobsR v st segs peek else decodeCobs v st segs peek
+
+/-- model of a receiver: the stream arrives in `pieces` appended to one segment (base address offset `a`),
+    the decoder is called after every arrival; result of the first call that does not return 0 -/
+def arrive (v : Variant) (a : Nat) : DecState → List Byte → List (List Byte) → Option DecOut
+  | _, _, [] => none
+  | st, store, p :: ps =>
+    if (decodeV v st [(a, store ++ p)] false).ret = .val 0 then
+      arrive v a (decodeV v st [(a, store ++ p)] false).st (decodeV v st [(a, store ++ p)] false).store ps
+    else some (decodeV v st [(a, store ++ p)] false)
+
 /-- `source == NULL`: reset (`sourcelen == 0`) or size query -/
 def decodeQuery (v : Variant) (st : DecState) (n : Nat) : DecRet × DecState :=
   if n = 0 then (.val 0, { st with ctx := 0 })
